@@ -982,7 +982,7 @@ def jtheta(ctx, n, z, q, derivative=0):
             raise ValueError
     finally:
         ctx.prec = prec0
-    return res
+    return +res
 
 @defun
 def _djtheta(ctx, n, z, q, derivative=1):
